@@ -226,8 +226,8 @@ def _c08_vm_sample(d, tier, coq, build, want=200):
 
 CONFIG = {
     "properties_file": "Properties/C08.v",
-    "proof_files": ["Base/Prelude.v", "Base/Regex.v", "Proofs/OciIndex.v", "Proofs/TarFS.v", "Proofs/OciConc.v", "Proofs/OciFuel.v"],
-    "model_files": ["Generated/GC08.v", "Model/OciIndex.v", "Model/TarFS.v", "Model/OciConc.v"],
+    "proof_files": ["Base/Prelude.v", "Base/Regex.v", "Proofs/OciIndex.v", "Proofs/TarFS.v", "Proofs/OciConc.v", "Proofs/OciFuel.v", "Proofs/OciLocks.v"],
+    "model_files": ["Generated/GC08.v", "Model/OciIndex.v", "Model/TarFS.v", "Model/OciConc.v", "Model/OciLocks.v"],
     "extract": "XC08.v",
     "ml_main": "c08_main.ml",
     "harness": "c08",
